@@ -114,9 +114,34 @@ func (s *store) Delete(ctx context.Context, key string) error {
 	return nil
 }
 
+// The protocol names subscribers s1, s2, …; the REAL subscriber ids handed to the allocator are opaque strings that
+// may contain "/" (nothing escapes them in the store key): odd K ↦ "K", even K ↦ "olt/<K-1>", so the last path
+// segment of an even subscriber's id is the whole id of its odd neighbour.
+func subID(tok string) string {
+	k, err := strconv.Atoi(strings.TrimPrefix(tok, "s"))
+	if err != nil || !strings.HasPrefix(tok, "s") {
+		return tok
+	}
+	if k%2 == 0 {
+		return fmt.Sprintf("olt/%d", k-1)
+	}
+	return strconv.Itoa(k)
+}
+
+func subTok(id string) string {
+	if rest, ok := strings.CutPrefix(id, "olt/"); ok {
+		if k, err := strconv.Atoi(rest); err == nil {
+			return fmt.Sprintf("s%d", k+1)
+		}
+	}
+	if k, err := strconv.Atoi(id); err == nil {
+		return fmt.Sprintf("s%d", k)
+	}
+	return id
+}
+
 func subNum(key string) int {
-	i := strings.LastIndex(key, "/s")
-	n, _ := strconv.Atoi(key[i+2:])
+	n, _ := strconv.Atoi(strings.TrimPrefix(subTok(strings.TrimPrefix(key, "/allocation/p/")), "s"))
 	return n
 }
 
@@ -581,7 +606,7 @@ func (r *run) start(seed uint64, queryFails bool) string {
 	return "ok"
 }
 
-func (r *run) key(sub string) string { return "/allocation/p/" + sub }
+func (r *run) key(sub string) string { return "/allocation/p/" + subID(sub) }
 
 func (r *run) storeRec(sub string) *allocator.DistributedAllocation {
 	v, ok := r.st.data[r.key(sub)]
@@ -623,7 +648,7 @@ func flags(tok string) []bool {
 }
 
 func (r *run) getTok(sub string) string {
-	n, ok := r.da.Get(sub)
+	n, ok := r.da.Get(subID(sub))
 	if !ok || n == nil {
 		return "-"
 	}
@@ -682,7 +707,7 @@ func (r *run) do(op string) string {
 	switch f[0] {
 	case "alloc":
 		r.st.fails = flags(f[2])
-		n, err := r.da.Allocate(ctx, f[1])
+		n, err := r.da.Allocate(ctx, subID(f[1]))
 		if err != nil {
 			return classify(err)
 		}
@@ -690,17 +715,17 @@ func (r *run) do(op string) string {
 	case "allocmac":
 		r.st.fails = flags(f[2])
 		num, _ := strconv.Atoi(f[1][1:])
-		n, err := r.da.AllocateWithMAC(ctx, f[1], net.HardwareAddr{0x02, 0, 0, 0, byte(num >> 8), byte(num)})
+		n, err := r.da.AllocateWithMAC(ctx, subID(f[1]), net.HardwareAddr{0x02, 0, 0, 0, byte(num >> 8), byte(num)})
 		if err != nil {
 			return classify(err)
 		}
 		return "ok " + showNet(n, r.g.fam)
 	case "release":
 		r.st.fails = flags(f[2])
-		return classify(r.da.Release(ctx, f[1]))
+		return classify(r.da.Release(ctx, subID(f[1])))
 	case "renew":
 		r.st.fails = flags(f[2])
-		return classify(r.da.Renew(ctx, f[1]))
+		return classify(r.da.Renew(ctx, subID(f[1])))
 	case "get":
 		t := r.getTok(f[1])
 		if t == "-" {
@@ -712,7 +737,7 @@ func (r *run) do(op string) string {
 		if !ok {
 			return "none"
 		}
-		return s
+		return subTok(s)
 	case "stats":
 		st := r.da.Stats()
 		return fmt.Sprintf("%d %d", st.Allocated, st.Total)
@@ -738,7 +763,7 @@ func (r *run) do(op string) string {
 		racer := func() {
 			started = true
 			go func() {
-				n, err := r.da.Allocate(ctx, f[2])
+				n, err := r.da.Allocate(ctx, subID(f[2]))
 				if err != nil {
 					done <- classify(err)
 				} else {
@@ -769,7 +794,7 @@ func (r *run) do(op string) string {
 		ep, _ := strconv.ParseUint(f[3], 10, 64)
 		before := "none"
 		if s, ok := r.da.GetByPrefix(pfx); ok {
-			before = s
+			before = subTok(s)
 		}
 		// who holds the announced prefix according to the STORE (ParseCIDR masks the announcement)
 		storeBefore := "none"
@@ -782,7 +807,7 @@ func (r *run) do(op string) string {
 				}
 			}
 		}
-		val, _ := json.Marshal(&allocator.DistributedAllocation{PoolID: "p", SubscriberID: f[1], Prefix: pfx.String(), Epoch: ep})
+		val, _ := json.Marshal(&allocator.DistributedAllocation{PoolID: "p", SubscriberID: subID(f[1]), Prefix: pfx.String(), Epoch: ep})
 		r.st.fails = nil
 		r.st.data[r.key(f[1])] = val
 		if r.st.cb != nil {
@@ -819,7 +844,7 @@ func (r *run) do(op string) string {
 			tok := r.g.addrTok(i)
 			o := "-"
 			if s, ok := r.da.GetByPrefix(parseNet(tok, r.g.fam)); ok {
-				o = s
+				o = subTok(s)
 			}
 			rev = append(rev, tok+"="+o)
 		}
